@@ -42,6 +42,8 @@
 #include <type_traits>
 #include <utility>
 
+#include <algorithm>
+
 #include <unifex/detail/prologue.hpp>
 
 namespace unifex {
@@ -228,13 +230,18 @@ struct _receiver<Predecessor, Receiver, Func, FuncPolicy>::type {
                                 unifex::bulk_schedule(
                                     std::move(sched), num_chunks),
                                 [&](diff_t index) {
-                                  auto chunk_begin_it =
-                                      begin_it + (chunk_size * index);
-                                  auto chunk_end_it = chunk_begin_it;
+                                  // chunk_size is rounded up, so trailing
+                                  // chunks may start at or past the end of the
+                                  // range: clamp both ends to end_it
+                                  const diff_t remaining = end_it - begin_it;
+                                  auto chunk_begin_it = begin_it +
+                                      std::min(chunk_size * index, remaining);
+                                  auto chunk_end_it = end_it;
                                   if (index < (num_chunks - 1)) {
-                                    std::advance(chunk_end_it, chunk_size);
-                                  } else {
-                                    chunk_end_it = end_it;
+                                    chunk_end_it = begin_it +
+                                        std::min(
+                                            chunk_size * (index + 1),
+                                            remaining);
                                   }
 
                                   for (auto it = chunk_begin_it;
